@@ -12,18 +12,37 @@ open LaytheVerif.Gen.NanBox LaytheVerif.NanBox LaytheVerif.NanBox.Bits
 
 /-! ## Generated tables ↔ hand model -/
 
-/-- equality and hash of the boxed `Value` are the derived (bitwise) ones, `ObjectRef` compares and
-hashes by address, `ValueKind` hashes its discriminant; the enum `Value` derives neither. -/
+/-- the boxed `Value` no longer derives `PartialEq`/`Eq`/`Hash` on its word: all three are written
+out by hand (the translation of the impls is `value_eq` / `value_hash`, see `gen_boxed_eq` and
+`gen_boxed_hash`); `ObjectRef` compares and hashes by address, `ValueKind` hashes its discriminant;
+the enum `Value` derives neither. -/
 theorem gen_derives :
-    ("PartialEq" ∈ boxedDerives ∧ "Eq" ∈ boxedDerives ∧ "Hash" ∈ boxedDerives) ∧
+    ("PartialEq" ∉ boxedDerives ∧ "Eq" ∉ boxedDerives ∧ "Hash" ∉ boxedDerives) ∧
+    boxedImpls = ["PartialEq", "Eq", "Hash"] ∧
     ("PartialEq" ∈ objectRefDerives ∧ "Hash" ∈ objectRefDerives) ∧
     "Hash" ∈ valueKindDerives ∧
     ("PartialEq" ∉ enumDerives ∧ "Hash" ∉ enumDerives) := by decide
 
-/-- `impl PartialEq for Value` (enum) is the pinned table, or the pinned table plus the one-arm
-repair of D9.  Any other edit re-opens this lemma. -/
-theorem gen_eq_arms_known :
-    enumEqArms = pinnedEqArms ∨ enumEqArms = repairedEqArms ∨ enumEqArms = repairedEqArms' := by decide
+/-- `impl PartialEq for Value` of `mod boxed`, as generated from the Rust text: two numbers are
+compared as `f64` (IEEE), any other pair by its bits.  Any edit of the impl re-opens this lemma. -/
+theorem gen_boxed_eq (v w : BitVec 64) :
+    boxedEq v w = if is_num v && is_num w then ieeeEq v w else v == w := rfl
+
+/-- `impl Hash for Value` of `mod boxed`, as generated: a number feeds the hasher what the enum
+representation feeds it (`ValueKind::Number`, then `num as u64`), any other value its word. -/
+theorem gen_boxed_hash (v : BitVec 64) :
+    boxedHash v =
+      if is_num v then [("isize", Kind.Number.disc), ("u64", f64ToU64 v)] else [("u64", v.toNat)] := rfl
+
+/-- `to_bool` is `self == VALUE_TRUE` through the boxed `PartialEq`; `VALUE_TRUE` is not a number,
+so this is the comparison of the words it always was. -/
+theorem gen_to_bool (v : BitVec 64) : to_bool v = (v == VALUE_TRUE) := by
+  simp [to_bool, value_eq, tags_not_num.2.1]
+
+/-- `impl PartialEq for Value` (enum) is exactly the table of the model: one arm per variant
+(`(Undefined, Undefined) => true` included — D9 is repaired), then the wildcard.  Any other edit
+re-opens this lemma. -/
+theorem gen_eq_arms : enumEqArms = eqArms := by decide
 
 theorem gen_hash_arms : enumHashArms = [
     (.Number, [.kind .Number, .asU64]), (.Bool, [.kind .Bool, .payload]), (.Nil, [.kind .Nil]),
@@ -233,39 +252,15 @@ example : trace_derefs (encode (.num 0xfff8000000000000#64)) = false ∧
 
 /-! ## Equality -/
 
-/-- on every generated table we accept, the enum `==` is: same variant and equal payloads, except
-that `(Undefined, Undefined)` may be `false` (D9) -/
-theorem enumEq_char (a b : Abs) :
-    enumEq a b = specEq a b ∨ (a = .undefined ∧ b = .undefined) := by
-  unfold enumEq
-  rcases gen_eq_arms_known with e | e | e <;> rw [e] <;>
-    cases a <;> cases b <;> first | (left; rfl) | (right; exact ⟨rfl, rfl⟩)
+/-- **enum build vs Spec.** `unboxed::Value::eq` is the Spec's equality on every pair of values
+(no exception: the `(Undefined, Undefined)` arm exists). -/
+theorem C14_enum_eq_spec (a b : Abs) : enumEq a b = specEq a b := by
+  unfold enumEq; rw [gen_eq_arms]
+  cases a <;> cases b <;> rfl
 
-/-- **enum build vs Spec.** `unboxed::Value::eq` is the Spec's equality everywhere except possibly
-on `(undefined, undefined)`. -/
-theorem C14_enum_eq_spec_partial (a b : Abs) (h : undefPair a b = false) :
-    enumEq a b = specEq a b := by
-  rcases enumEq_char a b with e | ⟨rfl, rfl⟩
-  · exact e
-  · cases h
-
-theorem isNaN_not_zero (x : BitVec 64) (h : isZero x = true) : isNaN x = false := by
-  rcases isZero_cases x h with rfl | rfl <;> decide
-
-theorem num_eq_char (x y : BitVec 64)
-    (hex : ((isZero x && isZero y && x != y) || (isNaN x && x == y)) = false) :
-    (x == y) = ieeeEq x y := by
-  unfold ieeeEq
-  by_cases e : x = y
-  · subst e
-    cases hn : isNaN x <;> simp_all
-  · have : (x == y) = false := by simpa using e
-    cases hzx : isZero x <;> cases hzy : isZero y <;> simp_all
-
-/-- **boxed build vs Spec.** Bitwise equality of encodings is the Spec's equality except on two
-numbers that are `+0`/`-0` of different sign or the same NaN. -/
-theorem C14_boxed_eq_spec_partial (a b : Abs) (ha : a.ok = true) (hb : b.ok = true)
-    (hex : numEqExcluded a b = false) :
+/-- **boxed build vs Spec.** The boxed `==` on the encodings of two values of the envelope is the
+Spec's equality — for every pair, the two zeros and the NaNs included. -/
+theorem C14_boxed_eq_spec (a b : Abs) (ha : a.ok = true) (hb : b.ok = true) :
     boxedEq (encode a) (encode b) = specEq a b := by
   by_cases hk : a.kind = b.kind
   · cases a <;> cases b <;> simp [Abs.kind] at hk
@@ -273,56 +268,65 @@ theorem C14_boxed_eq_spec_partial (a b : Abs) (ha : a.ok = true) (hb : b.ok = tr
     · decide
     · rename_i p q; cases p <;> cases q <;> decide
     · rename_i x y
-      simpa [boxedEq, encode, from_num, specEq] using num_eq_char x y hex
+      have hx : is_num x = true := ha
+      have hy : is_num y = true := hb
+      simp [gen_boxed_eq, encode, from_num, specEq, hx, hy]
     · rename_i p q
-      simp only [boxedEq, specEq]
+      have np : is_num (from_obj p) = false := obj_not_num _ (from_obj_is_obj p)
+      simp only [gen_boxed_eq, encode, np, Bool.false_and, specEq]
       by_cases e : p = q
       · subst e; simp
       · have : encode (.obj p) ≠ encode (.obj q) := fun h =>
           e (by simpa using C14_encode_injective _ _ ha hb h)
         have e' : (p == q) = false := by simpa using e
-        have t' : (encode (.obj p) == encode (.obj q)) = false := by simpa using this
-        rw [e', t']
+        have t' : (from_obj p == from_obj q) = false := by simpa [encode] using this
+        simp [e', t']
   · have hne := C14_classes_disjoint a b ha hb hk
-    have : specEq a b = false := by
+    have hs : specEq a b = false := by
       cases a <;> cases b <;> simp_all [specEq, Abs.kind]
-    simp [boxedEq, hne, this]
+    have hn : (is_num (encode a) && is_num (encode b)) = false := by
+      rw [(C14_tests_agree a ha).2.2.2.2.1, (C14_tests_agree b hb).2.2.2.2.1]
+      cases a <;> cases b <;> simp_all [enumIsNum, Abs.variant, Abs.kind]
+    simp [gen_boxed_eq, hn, hne, hs]
 
-/-- **C14_eq_agree_partial.** The two representations agree on `==` for all pairs of the envelope
-outside the excluded set `eqExcluded`: two numbers that are zeros of different sign, two numbers
-that are the *same* NaN pattern, and `(undefined, undefined)`. -/
-theorem C14_eq_agree_partial (a b : Abs) (ha : a.ok = true) (hb : b.ok = true)
-    (hex : eqExcluded a b = false) : boxedEq (encode a) (encode b) = enumEq a b := by
-  have h2 : numEqExcluded a b = false ∧ undefPair a b = false := by
-    simpa [eqExcluded] using hex
-  rw [C14_enum_eq_spec_partial a b h2.2]
-  exact C14_boxed_eq_spec_partial a b ha hb h2.1
+/-- **C14_eq_agree.** The two representations agree on `==` for **all** pairs of values of the
+envelope — no excluded set (before the repair of D8 the zeros of different sign and the NaNs had to
+be excluded, before the repair of D9 the pair `(undefined, undefined)`). -/
+theorem C14_eq_agree (a b : Abs) (ha : a.ok = true) (hb : b.ok = true) :
+    boxedEq (encode a) (encode b) = enumEq a b := by
+  rw [C14_enum_eq_spec, C14_boxed_eq_spec a b ha hb]
 
-/-- The excluded set is tight on numbers: on *every* pair of numbers in it the two builds really
-answer differently (so `C14_eq_agree_partial` cannot be strengthened). -/
-theorem C14_eq_differ_on_excluded (x y : BitVec 64)
-    (hex : eqExcluded (.num x) (.num y) = true) :
-    boxedEq (encode (.num x)) (encode (.num y)) ≠ enumEq (.num x) (.num y) := by
-  have he : enumEq (.num x) (.num y) = ieeeEq x y :=
-    C14_enum_eq_spec_partial _ _ rfl
-  rw [he]
-  have hex' : ((isZero x && isZero y && x != y) || (isNaN x && x == y)) = true := by
-    simpa [eqExcluded, numEqExcluded, undefPair] using hex
-  simp only [boxedEq, encode, from_num]
-  rcases Bool.or_eq_true _ _ |>.mp hex' with h | h
-  · simp only [Bool.and_eq_true, bne_iff_ne, ne_eq] at h
-    obtain ⟨⟨zx, zy⟩, ne⟩ := h
-    have : (x == y) = false := by simpa using ne
-    simp [this, ieeeEq, isNaN_not_zero x zx, isNaN_not_zero y zy, zx, zy]
-  · simp only [Bool.and_eq_true, beq_iff_eq] at h
-    obtain ⟨nx, e⟩ := h
-    subst e
-    simp [ieeeEq, nx]
+/-- On every pair of words a constructor can produce (not only on encodings we chose) the boxed
+`==` is the Spec's equality of what the words mean. -/
+theorem C14_boxed_eq_on_proper (v w : BitVec 64) (hv : proper v = true) (hw : proper w = true) :
+    ∃ a b, decode v = some a ∧ decode w = some b ∧ boxedEq v w = specEq a b := by
+  obtain ⟨a, da, oka, ea⟩ := C14_decode_encode_proper v hv
+  obtain ⟨b, db, okb, eb⟩ := C14_decode_encode_proper w hw
+  refine ⟨a, b, da, db, ?_⟩
+  rw [← ea, ← eb]; exact C14_boxed_eq_spec a b oka okb
 
-/-- the statement one would like — refuted below -/
-def C14_full : Prop :=
-  ∀ a b : Abs, a.ok = true → b.ok = true →
-    boxedEq (encode a) (encode b) = specEq a b ∧ enumEq a b = specEq a b
+theorem ieeeEq_comm (x y : BitVec 64) : ieeeEq x y = ieeeEq y x := by
+  unfold ieeeEq
+  by_cases e : x = y
+  · subst e; rfl
+  · have e1 : (x == y) = false := by simpa using e
+    have e2 : (y == x) = false := by simpa using fun h : y = x => e h.symm
+    rw [e1, e2]
+    cases isNaN x <;> cases isNaN y <;> cases isZero x <;> cases isZero y <;> rfl
+
+/-- over **all** 2^64 × 2^64 words: the boxed `==` is symmetric, and a word is equal to itself
+unless it is a number that is a NaN (the same laws the enum build's `==` has). -/
+theorem C14_boxed_eq_laws (x y : BitVec 64) :
+    boxedEq x y = boxedEq y x ∧ boxedEq x x = !(is_num x && isNaN x) := by
+  constructor
+  · rw [gen_boxed_eq, gen_boxed_eq, ieeeEq_comm x y, Bool.and_comm (is_num x)]
+    by_cases e : x = y
+    · subst e; rfl
+    · have e1 : (x == y) = false := by simpa using e
+      have e2 : (y == x) = false := by simpa using fun h : y = x => e h.symm
+      rw [e1, e2]
+  · rw [gen_boxed_eq]
+    cases is_num x <;> cases hn : isNaN x <;> simp [ieeeEq, hn]
 
 def posZero : BitVec 64 := 0x0000000000000000#64
 def negZero : BitVec 64 := 0x8000000000000000#64
@@ -332,51 +336,35 @@ def qNaN : BitVec 64 := 0x7ff8000000000000#64
 def indefNaN : BitVec 64 := 0xfff8000000000000#64
 
 set_option maxRecDepth 8192 in
-/-- **D8 (zero).** `0 == -0` is `false` in the boxed build, `true` per IEEE and in the enum build;
-the two zeros also hash differently there (so `m[0]` and `m[-0]` are different map slots). -/
-theorem C14_witness_zero :
-    boxedEq (encode (.num posZero)) (encode (.num negZero)) = false ∧
-    specEq (.num posZero) (.num negZero) = true ∧ enumEq (.num posZero) (.num negZero) = true ∧
-    boxedHash (encode (.num posZero)) ≠ boxedHash (encode (.num negZero)) ∧
-    (Abs.num posZero).ok = true ∧ (Abs.num negZero).ok = true := by decide
-
-set_option maxRecDepth 8192 in
-/-- **D8 (NaN).** `NaN == NaN` is `true` in the boxed build, `false` per IEEE and in the enum build. -/
-theorem C14_witness_nan :
-    boxedEq (encode (.num indefNaN)) (encode (.num indefNaN)) = true ∧
-    specEq (.num indefNaN) (.num indefNaN) = false ∧ enumEq (.num indefNaN) (.num indefNaN) = false ∧
-    arithNaN indefNaN = true ∧ (Abs.num indefNaN).ok = true := by decide
-
-/-- **D9.** With the pinned arms `Undefined == Undefined` is `false` in the enum build and `true`
-in the boxed one (and per Spec). -/
-theorem C14_witness_undefined :
-    evalEqArms pinnedEqArms .undefined .undefined = false ∧
-    boxedEq (encode .undefined) (encode .undefined) = true ∧ specEq .undefined .undefined = true := by
+/-- `0 == -0` (and the two zeros hash alike), `NaN != NaN` — for `f64::NAN` and for the NaN `0/0`
+yields on x86-64 — and `undefined == undefined`, in both representations and per Spec: the inputs of
+the repaired defects D8 and D9, kept as closed regression facts. -/
+theorem C14_zero_nan_regression :
+    boxedEq (encode (.num posZero)) (encode (.num negZero)) = true ∧
+    enumEq (.num posZero) (.num negZero) = true ∧ specEq (.num posZero) (.num negZero) = true ∧
+    boxedHash (encode (.num posZero)) = boxedHash (encode (.num negZero)) ∧
+    boxedEq (encode (.num indefNaN)) (encode (.num indefNaN)) = false ∧
+    boxedEq (encode (.num qNaN)) (encode (.num qNaN)) = false ∧
+    enumEq (.num indefNaN) (.num indefNaN) = false ∧ specEq (.num qNaN) (.num qNaN) = false ∧
+    boxedEq (encode .undefined) (encode .undefined) = true ∧ enumEq .undefined .undefined = true := by
   decide
-
-/-- the generated table still has D9 iff it is the pinned one -/
-theorem C14_d9_present_iff : d9Present = true ↔ enumEqArms = pinnedEqArms := by decide
-
-theorem C14_full_false : ¬ C14_full := by
-  intro h
-  have := (h (.num posZero) (.num negZero) (by decide) (by decide)).1
-  exact absurd this (by decide)
 
 /-! ## Hash -/
 
-theorem enumEq_true_char (a b : Abs) (h : enumEq a b = true) : specEq a b = true := by
-  rcases enumEq_char a b with e | ⟨rfl, rfl⟩
-  · rw [← e]; exact h
-  · rfl
+theorem ieeeEq_f64ToU64 (x y : BitVec 64) (h : ieeeEq x y = true) : f64ToU64 x = f64ToU64 y := by
+  simp only [ieeeEq, Bool.and_eq_true, Bool.or_eq_true, beq_iff_eq] at h
+  rcases h.2 with e | ⟨zx, zy⟩
+  · rw [e]
+  · rw [f64ToU64_zero x zx, f64ToU64_zero y zy]
 
 /-- **C14_hash_consistent.** In each representation equal values hash equally (the hasher is fed
-the same sequence of writes). -/
+the same sequence of writes) — on the boxed side for all 2^64 × 2^64 words, `+0`/`-0` included. -/
 theorem C14_hash_consistent :
     (∀ a b : Abs, enumEq a b = true → enumHash a = enumHash b) ∧
     (∀ x y : BitVec 64, boxedEq x y = true → boxedHash x = boxedHash y) := by
   constructor
   · intro a b h
-    have hs := enumEq_true_char a b h
+    have hs : specEq a b = true := by rw [← C14_enum_eq_spec]; exact h
     unfold enumHash; rw [gen_hash_arms]
     cases a <;> cases b <;> simp [specEq] at hs
     · rfl
@@ -384,22 +372,69 @@ theorem C14_hash_consistent :
     · subst hs; rfl
     · rename_i x y
       simp only [enumHashOf, List.find?, Abs.variant]
-      simp only [ieeeEq, Bool.and_eq_true, Bool.or_eq_true, beq_iff_eq] at hs
-      rcases hs.2 with e | ⟨zx, zy⟩
-      · subst e; rfl
-      · have hx := f64ToU64_zero x zx
-        have hy := f64ToU64_zero y zy
-        show [("isize", Kind.Number.disc)] ++ [("u64", f64ToU64 x)] =
-          [("isize", Kind.Number.disc)] ++ [("u64", f64ToU64 y)]
-        rw [hx, hy]
+      have := ieeeEq_f64ToU64 x y hs
+      show [("isize", Kind.Number.disc)] ++ [("u64", f64ToU64 x)] =
+        [("isize", Kind.Number.disc)] ++ [("u64", f64ToU64 y)]
+      rw [this]
     · subst hs; rfl
   · intro x y h
-    have : x = y := by simpa [boxedEq] using h
-    subst this; rfl
+    rw [gen_boxed_eq] at h
+    by_cases hb : (is_num x && is_num y) = true
+    · rw [hb] at h
+      have h' : ieeeEq x y = true := by simpa using h
+      have hx : is_num x = true := by simp_all
+      have hy : is_num y = true := by simp_all
+      rw [gen_boxed_hash, gen_boxed_hash, hx, hy, ieeeEq_f64ToU64 x y h']
+      rfl
+    · have hb' : (is_num x && is_num y) = false := by simpa using hb
+      rw [hb'] at h
+      have : x = y := by simpa using h
+      subst this; rfl
 
-/-- distinct hash keys are necessary for the converse on the enum side *only* up to the `as u64`
-truncation: e.g. `0.5` and `0.25` are different values with the same hash input (allowed). -/
-example : enumHash (.num 0x3fe0000000000000#64) = enumHash (.num 0x3fd0000000000000#64) := by decide
+/-- **C14_hash_numbers_agree.** A number feeds the hasher the same writes in both representations
+(so a map whose keys are numbers has the same layout, hence the same iteration order, in both
+builds; the hasher is the deterministic FNV). -/
+theorem C14_hash_numbers_agree (x : BitVec 64) (h : (Abs.num x).ok = true) :
+    boxedHash (encode (.num x)) = enumHash (.num x) := by
+  have hn : is_num x = true := h
+  unfold enumHash; rw [gen_hash_arms, gen_boxed_hash]
+  simp [encode, from_num, hn, enumHashOf, hashItem, Abs.variant]
+
+/-- **DC14.1 (open finding).** `nil` and the booleans do *not* feed the hasher the same writes in
+the two representations (enum: the `ValueKind` discriminant, then the bool as `u8`; boxed: the word),
+so the layout of a map with such keys — its iteration order — differs between the builds although it
+does not depend on addresses.  Equality and lookups are unaffected (`C14_full`). -/
+theorem C14_witness_nil_bool_hash :
+    boxedHash (encode .nil) ≠ enumHash .nil ∧ boxedHash (encode (.bool true)) ≠ enumHash (.bool true) ∧
+    boxedHash (encode (.bool false)) ≠ enumHash (.bool false) ∧
+    enumHash (.bool true) = [("isize", 0), ("u8", 1)] ∧
+    boxedHash (encode (.bool true)) = [("u64", 0x7ffc000000000003)] := by decide
+
+/-- distinct hash keys are necessary for the converse *only* up to the `as u64` truncation: e.g.
+`0.5` and `0.25` are different values with the same hash input (allowed), in both builds. -/
+example : enumHash (.num 0x3fe0000000000000#64) = enumHash (.num 0x3fd0000000000000#64) ∧
+    boxedHash (encode (.num 0x3fe0000000000000#64)) = boxedHash (encode (.num 0x3fd0000000000000#64)) := by decide
+
+/-! ## The property -/
+
+/-- **C14_full.** For every pair of values of the envelope, the NaN-boxed representation and the
+enum representation are the same language-level value: the boxed word reads back as the value and
+answers its kind, every type test agrees, `==` agrees in both builds with the Spec (IEEE on numbers,
+identity otherwise), equal values hash equally in both builds, and the collector dereferences the
+word exactly when the value is an object.  (Refuted before the repair of D8 — `C14_full_false`.) -/
+theorem C14_full (a b : Abs) (ha : a.ok = true) (hb : b.ok = true) :
+    (decode (encode a) = some a ∧ kind (encode a) = some a.kind) ∧
+    (is_nil (encode a) = enumIsNil a ∧ is_undefined (encode a) = enumIsUndefined a ∧
+      is_bool (encode a) = enumIsBool a ∧ is_false (encode a) = enumIsFalse a ∧
+      is_num (encode a) = enumIsNum a ∧ is_obj (encode a) = enumIsObj a) ∧
+    (boxedEq (encode a) (encode b) = specEq a b ∧ enumEq a b = specEq a b) ∧
+    (specEq a b = true → boxedHash (encode a) = boxedHash (encode b) ∧ enumHash a = enumHash b) ∧
+    (trace_derefs (encode a) = true ↔ a.kind = Kind.Obj) := by
+  refine ⟨C14_roundtrip a ha, C14_tests_agree a ha, ⟨C14_boxed_eq_spec a b ha hb, C14_enum_eq_spec a b⟩,
+    ?_, C14_trace_skips_every_number a ha⟩
+  intro hs
+  exact ⟨C14_hash_consistent.2 _ _ (by rw [C14_boxed_eq_spec a b ha hb]; exact hs),
+    C14_hash_consistent.1 _ _ (by rw [C14_enum_eq_spec]; exact hs)⟩
 
 /-! ## Non-vacuity -/
 
@@ -416,25 +451,25 @@ example : (Abs.obj 0x0003fffffffffff8#64).ok = true := by decide
 -- … and outside: a pointer with bit 50 set, a NaN whose payload contains QNAN's bits
 example : (Abs.obj 0x0004000000000000#64).ok = false := by decide
 example : (Abs.num 0x7ffc000000000001#64).ok = false ∧ decode (encode (.num 0x7ffc000000000001#64)) = some .nil := by decide
--- pairs outside the excluded set: 1.5 vs 1.5, 0 vs 0, NaN vs another NaN, a number vs nil, two objects
-example : eqExcluded (.num 0x3ff8000000000000#64) (.num 0x3ff8000000000000#64) = false := by decide
-example : eqExcluded (.num posZero) (.num posZero) = false := by decide
-example : eqExcluded (.num qNaN) (.num indefNaN) = false := by decide
-example : eqExcluded (.num qNaN) .nil = false := by decide
-example : eqExcluded (.obj 0x1000#64) (.obj 0x1000#64) = false := by decide
-example : numEqExcluded (.num qNaN) (.num indefNaN) = false ∧ numEqExcluded (.num negZero) (.num negZero) = false ∧
-    undefPair .undefined .nil = false ∧ undefPair (.num posZero) (.num negZero) = false := by decide
--- the excluded set is exactly the witnesses' shape
-example : eqExcluded (.num posZero) (.num negZero) = true ∧ eqExcluded (.num qNaN) (.num qNaN) = true ∧
-    eqExcluded .undefined .undefined = true := by decide
+-- pairs on which the repaired `==` matters or must not change: 1.5 vs 1.5, NaN vs another NaN, a NaN-tagged
+-- non-number vs itself (still bitwise), a number vs nil, two objects
+example : boxedEq (encode (.num 0x3ff8000000000000#64)) (encode (.num 0x3ff8000000000000#64)) = true := by decide
+example : boxedEq (encode (.num qNaN)) (encode (.num indefNaN)) = false := by decide
+example : boxedEq (encode .nil) (encode .nil) = true ∧ boxedEq (encode (.num qNaN)) (encode .nil) = false := by decide
+example : boxedEq (encode (.obj 0x1000#64)) (encode (.obj 0x1000#64)) = true ∧
+    boxedEq (encode (.obj 0x1000#64)) (encode (.obj 0x1008#64)) = false := by decide
+-- outside the envelope nothing is claimed: the bits of this "number" are the word of `nil`
+example : boxedEq (encode (.num 0x7ffc000000000001#64)) (encode .nil) = true := by decide
 -- proper / improper patterns
 example : proper (encode (.obj 0x00007f3a5c001230#64)) = true := by decide
 example : proper 0x7ffc000000000009#64 = false ∧ kind 0x7ffc000000000009#64 = some Kind.Nil ∧
     is_nil 0x7ffc000000000009#64 = false := by decide
 example : kind 0x7ffc000000000000#64 = none := by decide
--- the enum hash input of 1.0 and of a pointer
-example : enumHash (.num 0x3ff0000000000000#64) = [("isize", 3), ("u64", 1)] := by decide
-example : enumHash (.obj 0x1000#64) = [("isize", 4), ("usize", 4096)] := by decide
+-- the hash input of 1.0 (both builds) and of a pointer
+example : enumHash (.num 0x3ff0000000000000#64) = [("isize", 3), ("u64", 1)] ∧
+    boxedHash (encode (.num 0x3ff0000000000000#64)) = [("isize", 3), ("u64", 1)] := by decide
+example : enumHash (.obj 0x1000#64) = [("isize", 4), ("usize", 4096)] ∧
+    boxedHash (encode (.obj 0x1000#64)) = [("u64", 0xfffc000000001000)] := by decide
 example : f64ToU64 0x43f0000000000000#64 = 2 ^ 64 - 1 ∧ f64ToU64 0x43efffffffffffff#64 = 18446744073709549568 ∧
     f64ToU64 0xbff0000000000000#64 = 0 ∧ f64ToU64 0x7ff0000000000000#64 = 2 ^ 64 - 1 ∧ f64ToU64 qNaN = 0 := by decide
 
